@@ -627,9 +627,14 @@ func compareAndWriteFile(filePath string, b []byte) (bool, error) {
 	}
 
 	if len(buf) != len(b) {
-		if err := f.Truncate(int64(len(b))); err != nil {
+		// Truncating and rewriting in place would leave a truncated or zero-padded
+		// file under filePath if the process died in between, which no reader of
+		// the metadata can parse. Replace the file atomically instead. (Content of
+		// the same length is rewritten by the single write below.)
+		if err := writeFileAtomic(filePath, b, 0775); err != nil {
 			return false, err
 		}
+		return true, nil
 	}
 
 	if _, err := f.WriteAt(b, 0); err != nil {
